@@ -194,6 +194,8 @@ def gen_history(rng, tier):
     cfg = {"cls": cls, "hash_method": rng.choice(["a", "a", "b", "default", "default"]),
            "disk": rng.random() < 0.75, "split": rng.choice([True, False, "auto", "default"])}
     cfg.update(_policy(rng))
+    # the caller passes the very same (mutated in place) argument objects for every query of a process
+    cfg["same_objects"] = rng.random() < 0.3
     events = []
     nev = rng.randint(6, 14)
     hot = rng.sample(range(len(pool)), min(len(pool), rng.choice([2, 3, 4])))
@@ -227,6 +229,7 @@ def run_history(hist, base, mode=None):
     cfg0 = hist["cfg"]
     d = os.path.join(base, "cache") if cfg0["disk"] else None
     cur = {"cls": cfg0["cls"], "hash_method": cfg0["hash_method"], "directory": d, "split": cfg0["split"],
+           "same_objects": bool(cfg0.get("same_objects")),
            "overwrite": cfg0["overwrite"], "cache_only": cfg0["cache_only"]}
     segments = [[dict(cur), [], cfg0.get("owner")]]
     for ev in hist["events"]:
@@ -598,6 +601,8 @@ def check_history(ctx, drv, hist, root, tag):
     for k, _ in hist["pool"]:
         ctx.count("variant:" + k)
     after_restart = False
+    if hist["cfg"].get("same_objects"):
+        ctx.count("history:same-argument-objects-mutated-in-place")
     for ev, o in zip(hist["events"], obs):
         if o is None:
             ctx.count("event:restart" if "owner" not in ev else "event:owner-switch")
